@@ -820,7 +820,11 @@ func check(prop, tier string) int {
 		seenClass[key]++
 		cand.v = v
 		if v.Class != "hang" {
-			cand.p, cand.v = c.shrink(cand.node, cand.p, v)
+			sp, sv := c.shrink(cand.node, cand.p, v)
+			// the minimised program must itself reproduce in a fresh process; otherwise keep the confirmed original
+			if w, err := c.confirm(cand.node, sp); err == nil && w != nil && w.Class == sv.Class {
+				cand.p, cand.v = sp, sv
+			}
 		}
 		violations = append(violations, cand)
 	}
